@@ -278,6 +278,40 @@ pub fn run(args: &Args) -> i32 {
         evaluate(SIM_RUN, &b, what, loc);
     });
 
+    // 2b. counters, masks, sizes and reserved fields inside otherwise valid banks: every header/footer byte of the
+    //     TRG bank, of a wire bank and of a single-chunk pad bank at every value (chunk CRCs re-derived so that the
+    //     deviation reaches the packet decoder), plus every single bit of the TRG bank
+    {
+        let tiny = bases.iter().find(|b| b.0.starts_with("a single wire")).unwrap().1.encode();
+        let ti = tiny.iter().position(|b| b.0 == "ATAT").unwrap();
+        let wi = tiny.iter().position(|b| b.0.starts_with('C')).unwrap();
+        let pi = tiny.iter().position(|b| b.0.starts_with("PC")).unwrap();
+        let (wl, pl) = (tiny[wi].1.len(), tiny[pi].1.len());
+        // (bank index, byte offset)
+        let mut sites: Vec<(usize, usize)> = (0..80).map(|o| (ti, o)).collect();
+        sites.extend((0..40.min(wl)).chain(wl.saturating_sub(8)..wl).map(|o| (wi, o)));
+        sites.extend((0..72.min(pl)).chain(pl.saturating_sub(12)..pl).map(|o| (pi, o)));
+        let ns = sites.len() as u64;
+        rep.cov("byte_sweep_sites", json!({"trg": 80, "wire": sites.iter().filter(|s| s.0 == wi).count(), "pad_chunk": sites.iter().filter(|s| s.0 == pi).count()}));
+        rep.run("bank-byte-sweeps", ns * 256 + 640, 300, true, "single wire + single pad event: every byte of the TRG bank, the first 40 and last 8 bytes of the wire bank, the first 72 and last 12 bytes of the single-chunk pad bank (chunk header, packet header, masks; CRCs re-derived) x all 256 values; every single bit of the TRG bank flipped", |k, loc| {
+            let mut b = tiny.clone();
+            let what;
+            if k < ns * 256 {
+                let (bi, off) = sites[(k / 256) as usize];
+                b[bi].1[off] = (k % 256) as u8;
+                if bi == pi {
+                    chunk_fix_crcs(&mut b[bi].1);
+                }
+                what = json!({"bank": b[bi].0, "offset": off, "value": k % 256});
+            } else {
+                let bit = (k - ns * 256) as usize;
+                b[ti].1[bit / 8] ^= 1 << (bit % 8);
+                what = json!({"bank": "ATAT", "flipped_bit": bit});
+            }
+            evaluate(SIM_RUN, &b, what, loc);
+        });
+    }
+
     // 3. other run numbers (maps / calibrations present or absent)
     let runs = [0u32, 2941, 4418, 7026, 9277, 10418, 11084, 11200, 20000, u32::MAX - 1];
     let real = hits_event(&[Hit { wire: 20, bin: 30, z: 0.1013, amp: 120.0 }, Hit { wire: 22, bin: 30, z: 0.35, amp: 90.0 }], 0.004, 9);
